@@ -139,6 +139,12 @@ func c03conc(r *Rng) *Trace {
 	tr.Knobs.Stay = []float64{0.1, 0.5, 0.8}[r.Intn(3)]
 	tr.Knobs.PreemptWant = []float64{0.5, 0.9}[r.Intn(2)]
 	tr.Knobs.CfgYield = []int{0, 0, 3, 1}[r.Intn(4)]
+	if r.Bool(0.35) {
+		// an accept-everything push policy: foreign code running inside the
+		// critical section, and a yield point there
+		tr.Setup = append(tr.Setup, Op{Obj: 0, M: "SetPushPolicy", Args: []Val{vFn(2)}})
+		tr.Knobs.PolicyYield = true
+	}
 	return tr
 }
 
